@@ -21,7 +21,7 @@ SUB = {'estimate': c01, 'coring': c05, 'md_wt': c06, 'md_paths': c06}
 
 
 def _applicable_forms(trajs):
-    forms = ['list_of_arrays', 'mixed_arrays', 'statetraj']
+    forms = ['list_of_arrays', 'mixed_arrays', 'statetraj', 'narrow_arrays']
     if all(len(t) > 0 for t in trajs):
         forms.append('list_of_lists')
     if len(trajs) == 1:
@@ -36,6 +36,10 @@ def cases(tier, rng, boost=1):
     a = list(range(100)) * 2
     b = list(range(200)) + list(range(199, -1, -1))
     yield dict(c01._mk([a, b], 1, form='mixed_first_narrow', src='corpus', cls='zero'), fn='estimate', relabel=None, forms=['mixed_first_narrow', 'list_of_arrays'])
+    yield dict(c06._mk('md_wt', [[-100, -1, 100, -1, -100, 100, 100, -1, -100]], [-100], [100], src='corpus'), fn='md_wt', relabel=None,
+               forms=['narrow_arrays', 'list_of_lists', 'list_of_arrays'])
+    yield dict(c01._mk([[-128, -2, 127, -2, -128, 127, 127, -2]], 1, src='corpus', cls='narrow_wide'), fn='estimate', relabel=None,
+               forms=['narrow_arrays', 'list_of_arrays', 'list_of_lists'])
     n = {'quick': 150, 'thorough': 2000, 'search': 500}[tier] * boost
     for _ in range(n):
         ns = rng.randint(2, 6)
